@@ -54,6 +54,7 @@ type propSpec struct {
 	Extra       map[string]string
 	Exhaustive  bool
 	NeedsD2Bin  bool // the real d2 binary (no tags, no overlay) for cross-validation
+	WatchdogS   int  // wall-clock limit of a single run (default 90 s)
 }
 
 var props = map[string]propSpec{}
@@ -170,6 +171,33 @@ func classifyCrash(log, prop string) *harness.Failure {
 		return nil
 	}
 	last := ms[len(ms)-1]
+	if wd := strings.Index(log, "VSIM-WATCHDOG "); wd >= 0 {
+		// A run hung. If goroutines of d2 wait for each other's mutexes, the system under
+		// test deadlocked; otherwise it is the harness's problem.
+		dump := log[wd:]
+		var stuck []string
+		for _, g := range strings.Split(dump, "\n\n") {
+			head := g
+			if i := strings.IndexByte(g, '\n'); i >= 0 {
+				head = g[:i]
+			}
+			if (strings.Contains(head, "sync.Mutex.Lock") || strings.Contains(head, "sync.RWMutex") || strings.Contains(head, "semacquire") || strings.Contains(head, "sync.WaitGroup.Wait")) &&
+				strings.Contains(g, "oss.terrastruct.com/d2/") && !strings.Contains(g, "verifsim/") {
+				stuck = append(stuck, g)
+			}
+		}
+		if len(stuck) < 1 {
+			return nil
+		}
+		idx, _ := strconv.Atoi(last[1])
+		seed, _ := strconv.ParseUint(last[2], 10, 64)
+		msg := strings.Join(stuck, "\n\n")
+		if len(msg) > 4000 {
+			msg = msg[:4000]
+		}
+		return &harness.Failure{RunIndex: idx, Seed: seed, Result: harness.Result{Property: prop, Oracle: crashOracle[prop],
+			Msg: "the system under test deadlocked (goroutines of d2 blocked on locks for minutes of wall-clock time):\n" + msg}}
+	}
 	at := strings.Index(log, "\npanic: ")
 	if at < 0 {
 		at = strings.Index(log, "\nfatal error: ")
@@ -329,6 +357,11 @@ func main() {
 	for k, v := range spec.Extra {
 		baseEnv = append(baseEnv, "VSIM_X_"+k+"="+v)
 	}
+	wd := spec.WatchdogS
+	if wd == 0 {
+		wd = 90
+	}
+	baseEnv = append(baseEnv, "VSIM_RUN_WATCHDOG_S="+strconv.Itoa(wd))
 
 	if *replay != "" {
 		os.Exit(doReplay(bin, runDir, baseEnv, *prop, *replay))
